@@ -319,12 +319,24 @@ type Ctx struct {
 	decls   []string        // declaration lines in order
 	declSet map[string]Sort // name -> sort (constants) / "fun" marker
 	counter map[string]int  // fresh-name counters by prefix
-	axioms  []string        // global axioms (asserted in every query)
+	axioms  []string        // global axioms (asserted in the queries that mention their key symbol)
 	axSet   map[string]bool
+	axKey   map[string]string // axiom -> the symbol it defines ("" = always asserted)
+	declNames []string        // name declared by decls[i]
+	axDone  map[string]bool
+}
+
+func containsStr(xs []string, x string) bool {
+	for _, y := range xs {
+		if y == x {
+			return true
+		}
+	}
+	return false
 }
 
 func newCtx() *Ctx {
-	return &Ctx{declSet: map[string]Sort{}, counter: map[string]int{}, axSet: map[string]bool{}}
+	return &Ctx{declSet: map[string]Sort{}, counter: map[string]int{}, axSet: map[string]bool{}, axKey: map[string]string{}}
 }
 
 func sanitize(s string) string {
@@ -357,6 +369,7 @@ func (c *Ctx) Const(name string, s Sort) Term {
 	}
 	c.declSet[name] = s
 	c.decls = append(c.decls, fmt.Sprintf("(declare-fun %s () %s)", name, s))
+	c.declNames = append(c.declNames, name)
 	return Term{name, s}
 }
 
@@ -369,6 +382,7 @@ func (c *Ctx) Fresh(prefix string, s Sort) Term {
 		if _, ok := c.declSet[name]; !ok {
 			c.declSet[name] = s
 			c.decls = append(c.decls, fmt.Sprintf("(declare-fun %s () %s)", name, s))
+			c.declNames = append(c.declNames, name)
 			return Term{name, s}
 		}
 	}
@@ -390,15 +404,19 @@ func (c *Ctx) Fun(name string, args []Sort, ret Sort) string {
 		as[i] = string(a)
 	}
 	c.decls = append(c.decls, fmt.Sprintf("(declare-fun %s (%s) %s)", name, strings.Join(as, " "), ret))
+	c.declNames = append(c.declNames, name)
 	return name
 }
 
-// Axiom adds a global axiom once.
-func (c *Ctx) Axiom(a string) {
+// Axiom adds a global axiom once. key is the symbol the axiom defines: the axiom is asserted in the queries that mention it.
+func (c *Ctx) Axiom(a string) { c.AxiomKey("", a) }
+
+func (c *Ctx) AxiomKey(key, a string) {
 	if c.axSet[a] {
 		return
 	}
 	c.axSet[a] = true
+	c.axKey[a] = key
 	c.axioms = append(c.axioms, a)
 }
 
@@ -414,11 +432,57 @@ func (c *Ctx) query(assumptions []Term, goal Term, wantModel bool, values []Term
 		b.WriteString("(set-option :produce-models true)\n")
 	}
 	b.WriteString("(set-logic ALL)\n")
-	for _, d := range c.decls {
+	// Only the symbols this query mentions are declared, and an axiom is included only if the symbol it defines is
+	// mentioned: a query must not change (in text, hash, or solver behaviour) because an unrelated contract file of the
+	// same package declared more ghosts, or another path of the function created more constants.
+	used := map[string]bool{}
+	collect := func(s string) {
+		start := -1
+		for i := 0; i <= len(s); i++ {
+			delim := i == len(s) || s[i] == ' ' || s[i] == '(' || s[i] == ')' || s[i] == '\n' || s[i] == '\t'
+			if delim {
+				if start >= 0 {
+					used[s[start:i]] = true
+					start = -1
+				}
+			} else if start < 0 {
+				start = i
+			}
+		}
+	}
+	for _, a := range assumptions {
+		collect(a.S)
+	}
+	collect(goal.S)
+	for _, v := range values {
+		collect(v.S)
+	}
+	var axs []string
+	for changed := true; changed; {
+		changed = false
+		for _, a := range c.axioms {
+			if c.axDone == nil {
+				c.axDone = map[string]bool{}
+			}
+			key := c.axKey[a]
+			if (key == "" || used[key]) && !containsStr(axs, a) {
+				axs = append(axs, a)
+				collect(a)
+				changed = true
+			}
+		}
+	}
+	for i, d := range c.decls {
+		if i < len(c.declNames) && c.declNames[i] != "" && !used[c.declNames[i]] {
+			continue
+		}
 		b.WriteString(d)
 		b.WriteString("\n")
 	}
 	for _, a := range c.axioms {
+		if !containsStr(axs, a) {
+			continue
+		}
 		b.WriteString("(assert ")
 		b.WriteString(a)
 		b.WriteString(")\n")
